@@ -106,6 +106,7 @@ Step ==
                         /\ UNCHANGED <<wr, rc, seen, gap, nr, nl, cl, dead, added, live, ec, stop, stopret, grace>>
        [] e.e = "EC" -> /\ ec' = TRUE
                         /\ viol' = viol \cup (IF ~Cfg.v1 /\ ~oc THEN {"C07"} ELSE {})
+                                        \cup (IF Cfg.unordered /\ InFlight # 0 THEN {"C07"} ELSE {})
                         /\ UNCHANGED <<wr, rc, seen, gap, nr, nl, cl, dead, added, live, oc, stop, stopret, grace>>
        [] e.e = "EV" -> /\ viol' = viol \cup Also17(IF e.note # "nil" /\ ~Cfg.fault THEN {"C07"} ELSE {})
                                         \cup (IF Cfg.fault /\ e.note \notin {"nil", "divider produces an incorrect distribution"} THEN {"C15"} ELSE {})
@@ -124,6 +125,8 @@ Step ==
        [] e.e = "GraceRet" -> \* GracefulStop returns only when everything registered is closed, emptied, delivered and released
                         /\ viol' = viol \cup (IF ~stop /\ ~Cfg.fault /\ (~AllClosed \/ ~AllDelivered \/ InFlight # 0) THEN {"C07"} ELSE {})
                                         \cup (IF ~stop /\ ~Cfg.fault /\ ~AllDelivered THEN {"C02"} ELSE {})
+                                        \* simplified disciplines: termination, however reached, implies that every Handle call has returned
+                                        \cup (IF Cfg.unordered /\ InFlight # 0 THEN (IF stop THEN {"C07", "C16"} ELSE {"C07"}) ELSE {})
                                         \* elements of a channel handed over by an AddInput that returned must be delivered as well
                                         \cup (IF ~stop /\ ~Cfg.fault /\ (\E c \in live \cap added : rc[c] # wr[c] \/ gap[c]) THEN {"C17"} ELSE {})
                         /\ Keep
